@@ -70,7 +70,8 @@ Section P.
     is_rok (header_check rc rm fo o h) = header_spec rc rm fo o h.
   Proof.
     unfold g_hdr, header_check, header_spec. intros G.
-    destruct (h_schema h) as [s|]; [|discriminate].
+    destruct (h_schema h) as [s|].
+    2:{ destruct (h_required h), (h_found h); split; reflexivity. }
     destruct (h_found h); cbn [negb orb] in *.
     - destruct (h_decoded h) as [v|]; [|split; reflexivity].
       change (md_hdr o) with (md_of (resp_settings o false)).
